@@ -1,4 +1,39 @@
-(* C17 - placeholder statement file, replaced below *)
-From VJ Require Import Model.Str.
-Theorem C17_placeholder : True. Proof. exact I. Qed.
-Print Assumptions C17_placeholder.
+(* C17 - inferred runtime prop types accept every value of the declared TS type. Statements only.
+   `validation never rejects an inhabitant` is decided on real outputs against the generator's
+   table of value kinds and a model of Vue's assertType (tools/props.py); the theorems tie the
+   model's type tables to the source and give the composition laws. *)
+From VJ Require Import Model.Str Model.Json Model.Ast Model.State Model.Util Model.Types Lemmas.TypesProofs.
+From VJ Require Import Gen.Tables.
+
+(* the keyword table and the built-in name table of the model are the ones regenerated from
+   resolve_type.rs on this run *)
+Theorem C17_keyword_table :
+  forallb (fun '(kw, expected) => types_eqb (fst (irt E_dummy 5 (kw_type kw) st0)) [expected]) keyword_types = true
+  /\ forallb (fun kw => types_eqb (fst (irt E_dummy 5 (kw_type (s_ kw)) st0)) [None])
+             ["any"; "unknown"; "undefined"; "void"; "never"; "intrinsic"]%string = true.
+Proof. split; [exact keyword_table_agrees|exact other_keywords_unchecked]. Qed.
+Print Assumptions C17_keyword_table.
+
+Theorem C17_builtin_names :
+  forallb (fun '(name, tag) =>
+             match expected_for name tag with
+             | Some ts => types_eqb (fst (irt E_dummy 5 (tref name 1 []) st0)) ts
+             | None => true
+             end) runtime_type_names = true.
+Proof. exact builtin_name_table_agrees. Qed.
+Print Assumptions C17_builtin_names.
+
+(* unions are the (ordered, duplicate-free) union of their parts; aliases and parentheses are
+   transparent *)
+Theorem C17_union_alias_paren : forall E f a b t sym c ps aliased s,
+  irt E (S f) (gobj "TsUnionType" [fld "types" (NArr [a; b])]) s =
+    (let '(x, s1) := irt E f a s in let '(y, s2) := irt E f b s1 in (oset_extend (oset_extend [] x) y, s2))
+  /\ irt E (S f) (gobj "TsParenthesizedType" [fld "typeAnnotation" t]) s = irt E f t s
+  /\ (reg_get sym c (aliases s) = Some aliased -> irt E (S f) (tref sym c ps) s = irt E f aliased s).
+Proof. intros. split; [apply irt_union2|]. split; [apply irt_paren|apply irt_alias]. Qed.
+Print Assumptions C17_union_alias_paren.
+
+(* declaration order is kept: extending a set never reorders what is already in it *)
+Theorem C17_order_kept : forall (l xs : list (option str)), exists rest, oset_extend l xs = l ++ rest.
+Proof. exact oset_extend_keeps_order. Qed.
+Print Assumptions C17_order_kept.
